@@ -38,7 +38,11 @@ def gen_case(case):
     srcs = []
     mode = r.random()
     meta = {}
-    if mode < 0.08:
+    if mode < 0.07:
+        meta["mode"] = "paint-varied-reuse"
+        srcs.extend(svggen.paint_varied_reuse_set(r, r.randint(1, 3), defaults=True))
+        cfg["reuse_tolerance"] = 0.1
+    elif mode < 0.14:
         meta["mode"] = "twin-gradients"
         for g in range(r.randint(1, 2)):
             t, m = svggen.twin_gradient_source(r, g)
